@@ -194,8 +194,9 @@ Record ramb := { ra_event : Z; ra_track : Z; ra_part : Z; ra_qual : option (nat 
 Definition is_num (j : json) : bool := match j with JInt _ | JFloat | JNum _ => true | _ => false end.
 Definition num_field (fields : json) (name : option string) : option json :=
   match name with Some n => match get n fields with Some v => if is_num v then Some v else None | None => None end | None => None end.
+(* penalty_for_unchosen_course (after fix 7a6f786): num_choices + 1 in u32, saturating (before, `as u32 + 1` overflowed: defect D16) *)
 Definition unchosen_penalty (td : json) : nat :=
-  S (match get "num_choices" td with Some v => match as_u64 v with Some z => Z.to_nat z | None => 0 end | None => 0 end).
+  Z.to_nat (Z.min (1 + match get "num_choices" td with Some v => match as_u64 v with Some z => z | None => 0 end | None => 0 end) 4294967295)%Z.
 
 (* penalty_for_assigned_course_choice (after fix f94b8fe): the penalty of the found choice = its rank in the original list *)
 Definition assigned_penalty (ci : nat) (choices : list (nat * nat)) (td : json) : nat :=
